@@ -112,9 +112,62 @@ def check_stdio(case: Dict[str, Any]) -> Outcome:
     return out
 
 
+def check_reuse(case: Dict[str, Any]) -> Outcome:
+    """an id is used again on the same connection after its first request timed out unanswered (a retry), while another
+    caller is outstanding and ahead in the receive queue: the retry's answer, dequeued by the peer, must still reach it"""
+    from chuk_mcp.protocol.messages.send_message import send_message
+
+    out = Outcome(nontrivial=True)
+    rid = case.get("id", "job")
+    t_b, t_a2, d_ans, d_other = case["t_b"] / 100.0, case["t_a2"] / 100.0, case["d_ans"] / 100.0, case.get("d_other", 80) / 100.0
+    T1 = case.get("T1", 60) / 100.0
+    out.classes = ("id-reused-after-a-timeout", "peer-started-before-the-first-timeout" if t_b < T1 else "peer-started-after-the-first-timeout")
+    results: Dict[str, Any] = {}
+
+    async def call(r, w):
+        loop = asyncio.get_running_loop()
+
+        async def one(name: str, start: float, mid: Any, timeout: float):
+            try:
+                if start > loop.time():
+                    await asyncio.sleep(start - loop.time())
+                v = await send_message(r, w, f"m/{name}", {"who": name}, timeout=timeout, message_id=mid)
+                results[name] = ("return", v, loop.time())
+            except BaseException as e:  # noqa
+                results[name] = ("raise", e, loop.time())
+                if isinstance(e, asyncio.CancelledError):
+                    raise
+
+        tasks = [asyncio.ensure_future(one("A1", 0.0, rid, T1)), asyncio.ensure_future(one("B", t_b, "other", 4.0)), asyncio.ensure_future(one("A2", t_a2, rid, 2.0))]
+        for t_, n_ in zip(tasks, ("A1", "B", "A2")):
+            t_.set_name(n_)
+        await asyncio.gather(*tasks, return_exceptions=True)
+
+    schedule = [(t_a2 + d_ans, {"jsonrpc": "2.0", "id": rid, "result": {"for": "A2"}}), (t_a2 + d_ans + d_other, {"jsonrpc": "2.0", "id": "other", "result": {"for": "B"}})]
+    if case.get("notif"):
+        schedule.insert(0, (t_a2 + 0.01, {"jsonrpc": "2.0", "method": "notifications/message", "params": {"level": "info", "data": 1}}))
+    res = drive(call, schedule, wait_first_write=True, max_vtime=30)
+    if res.outcome == "hang":
+        out.fail("callers-never-finished", repr(results))
+        return out
+    a1, b, a2 = results.get("A1"), results.get("B"), results.get("A2")
+    if not (a1 and a1[0] == "raise" and isinstance(a1[1], TimeoutError)):
+        out.fail("unanswered-request-did-not-time-out", repr(a1))
+    if not (a2 and a2[0] == "return" and a2[1] == {"for": "A2"}):
+        if a2 and a2[0] == "return":
+            out.fail("cross-talk:caller-got-anothers-response", f"the retry with id {rid!r} returned {a2[1]!r}")
+        else:
+            out.fail("lost-response:answer-to-a-reused-id", f"id {rid!r}: first request timed out at {T1}s unanswered; retry sent at {t_a2}s, answered at {t_a2 + d_ans}s (deadline {t_a2 + 2.0}s) while a peer was waiting: retry ended with {a2 and a2[1]!r}")
+    if not (b and b[0] == "return" and b[1] == {"for": "B"}):
+        out.fail("lost-response:other" if not (b and b[0] == "return") else "cross-talk:caller-got-anothers-response", f"peer ended with {b!r}")
+    return out
+
+
 def check(case: Dict[str, Any]) -> Outcome:
     if "burst" in case:
         return check_stdio(case)
+    if "t_a2" in case:
+        return check_reuse(case)
     from chuk_mcp.protocol.messages.send_message import send_message
 
     out = Outcome()
@@ -448,13 +501,30 @@ def job_stdio(col: Collector, seed: int, tier: str) -> None:
     col.exhaustive_parts.append("over StdioClient: 2 and 3 callers x all answer orders x burst of {0,1,50,99,100,101,150,400} notifications ahead of the answers x {1,2,7} pipe reads; one answer of 70 KB with the small ones right behind it, reads of 16 / 64 / 100 KiB")
 
 
-JOBS = {"exhaustive": job_exhaustive, "hyp": job_hyp, "stdio": job_stdio}
+def job_reuse(col: Collector, seed: int, tier: str) -> None:
+    for rid in ("job", 7):
+        for t_b in (10, 55, 70):
+            for t_a2 in (65, 110, 160):
+                if t_a2 <= t_b:
+                    continue
+                for d_ans in (5, 30, 52, 100):
+                    for notif in (False, True):
+                        case = {"id": rid, "t_b": t_b, "t_a2": t_a2, "d_ans": d_ans, "notif": notif}
+                        col.record(case, check(case))
+    col.exhaustive_parts.append("an id reused after its first request timed out unanswered: 2 ids x peer start {0.10, 0.55, 0.70} x retry start {0.65, 1.10, 1.60} x answer delay {0.05, 0.30, 0.52, 1.00} x a notification in between or not")
+
+
+JOBS = {"reuse": job_reuse, "exhaustive": job_exhaustive, "hyp": job_hyp, "stdio": job_stdio}
+
+
+def _jobs_extra():
+    return [("reuse", {})]
 
 
 def jobs(tier: str):
     if tier == "quick":
-        return [("exhaustive", {"shard": s, "nshards": 10}) for s in range(10)] + [("hyp", {"shard": s, "n": 350}) for s in range(5)] + [("stdio", {})]
-    return [("exhaustive", {"shard": s, "nshards": 8}) for s in range(8)] + [("hyp", {"shard": s, "n": 6000}) for s in range(8)] + [("stdio", {})]
+        return [("exhaustive", {"shard": s, "nshards": 10}) for s in range(10)] + [("hyp", {"shard": s, "n": 350}) for s in range(5)] + [("stdio", {})] + _jobs_extra()
+    return [("exhaustive", {"shard": s, "nshards": 8}) for s in range(8)] + [("hyp", {"shard": s, "n": 6000}) for s in range(8)] + [("stdio", {})] + _jobs_extra()
 
 
 def shrink(signature: str, seed: int):
